@@ -11,7 +11,7 @@ func init() {
 	register(&PropDef{
 		ID:    "C02",
 		Pkgs:  []string{tr},
-		Claim: "Decides the structural part: a stream's pending-item queue is appended only by the data pre-processing step and the trailer handler, consumed only from the head by the data step, and drained only by stream cleanup; END_STREAM is set on a DATA frame only when the item asks for it and no bytes of it remain; an item is dequeued only when fully written and its written prefix is trimmed after every write; the client enqueues a last message only after winning the active->write-done state transition (and any message only while active); trailers are written directly only when the stream's queue is empty and otherwise queued behind the data; a successful trailer write is always followed by stream cleanup, which removes the stream from the writer's table before any RST_STREAM; a server stream is finished once.",
+		Claim: "Decides the structural part: a stream's pending-item queue is appended only by the data pre-processing step and the trailer handler, consumed only from the head by the data step, and drained only by stream cleanup; END_STREAM is set on a DATA frame only when the item asks for it and no bytes of it remain; an item is dequeued only when fully written and its written prefix is trimmed after every write; the client enqueues a last message only after winning the active->write-done state transition (and any message only while active); trailers are written directly only when the stream's queue is empty and otherwise queued behind the data; a successful trailer write is always followed by stream cleanup, which removes the stream from the writer's table before any RST_STREAM; a server stream is finished once. The data step's frame assembly is decided too: 'nothing left of this item' is len(h)==0 && reader.Remaining()==0, the header and data pieces are skipped only when empty, the written header prefix is the one dropped, a reader failure is never swallowed; the per-stream item list reports 'nothing' only when empty and clears its tail exactly when it became empty.",
 		NotDecided:  []string{"equality of the concatenated payload with the bytes the application wrote (value property)", "interleavings with transport shutdown"},
 		Assumptions: []string{"the writer loop is the only goroutine touching outStream state (single consumer of the control buffer)"},
 		Technique:   "static analysis: who-may-call per receiver field, dominating guards and flag-set conditions on go/ssa branch facts, must-pass-through path search, once-only swap guard",
@@ -20,7 +20,7 @@ func init() {
 	register(&PropDef{
 		ID:    "C03",
 		Pkgs:  []string{tr},
-		Claim: "Decides the structural part: whenever a stream is marked active it is also appended to the active list on every path, and a stream is appended without being marked only when it was just taken off the list in the active state; parked states (waiting for stream quota, empty) are assigned only to a stream just dequeued or just created; both re-activation sources exist and are guarded correctly (window update with positive stream quota, initial-window increase); the active list is FIFO (append before the tail sentinel, take after the head sentinel); after every handled control item the writer loop runs the data step before it blocks again. Eventual progress itself is not decided.",
+		Claim: "Decides the structural part: whenever a stream is marked active it is also appended to the active list on every path, and a stream is appended without being marked only when it was just taken off the list in the active state; parked states (waiting for stream quota, empty) are assigned only to a stream just dequeued or just created; both re-activation sources exist and are guarded correctly (window update with positive stream quota, initial-window increase); the active list is FIFO (append before the tail sentinel, take after the head sentinel); after every handled control item the writer loop runs the data step before it blocks again. Eventual progress itself is not decided. The writer loop ends only with a non-nil error, and it flushes and blocks for the next control item only when there was no pending item and the data step reported nothing to do.",
 		NotDecided:  []string{"'eventually' (fair scheduling, absence of lost wake-ups across goroutines)", "starvation freedom under adversarial window updates"},
 		Assumptions: []string{"single writer goroutine"},
 		Technique:   "static analysis: must-pass-through pairing of state store and list insertion, who-may-write with constant classification, dominating guards, path search through the writer loop",
